@@ -57,6 +57,7 @@ type Result struct {
 	Failures     []Failure        `json:"failures"`
 	Unknowns     []string         `json:"unknowns"`
 	BoundHits    []string         `json:"bound_hits"`
+	BoundInputs  [][]InputRec     `json:"bound_inputs,omitempty"` // inputs leading to the first few budget hits (possible non-termination of the code under test)
 	Unsupported  []string         `json:"unsupported"`
 	Witnesses    map[string]int   `json:"witnesses"`
 	Funcs        map[string]int   `json:"functions"`
@@ -99,6 +100,7 @@ type Config struct {
 	Tier           int
 	Progress       int
 	NoWitness      bool
+	MaxDecisions   int // symbolic decisions allowed on one path (default 100000)
 	LazyFP         bool // branches on floating-point conditions fork without a feasibility query; the path is checked once at its end
 }
 
@@ -524,7 +526,12 @@ func (it *Interp) evalModel(c *term.Term) (bool, bool) {
 	return v != 0, ok
 }
 
-func (c *Config) maxDecisions() int { return 100000 }
+func (c *Config) maxDecisions() int {
+	if c.MaxDecisions > 0 {
+		return c.MaxDecisions
+	}
+	return 100000
+}
 
 func (it *Interp) noteUnknown(what string) {
 	it.sawUnknown = true
@@ -897,10 +904,12 @@ func (it *Interp) runPath(entry *ssa.Function, prefix []dec, model map[string]ui
 				// inputs that lead here, when the solver still answers (a budget hit may be a loop in the code under test)
 				ins := ""
 				at := it.where()
+				var recs []InputRec
 				if it.cfg.Concrete == nil {
 					it.stack = it.stack[:0]
 					if r, m := it.check(nil, it.inputVars()); r == smt.Sat {
-						for _, in := range it.modelInputs(m) {
+						recs = it.modelInputs(m)
+						for _, in := range recs {
 							ins += fmt.Sprintf(" %s=%d", in.Name, in.Value)
 						}
 					}
@@ -908,6 +917,9 @@ func (it *Interp) runPath(entry *ssa.Function, prefix []dec, model map[string]ui
 				it.sh.res.mu.Lock()
 				if len(it.sh.res.BoundHits) < 20 {
 					it.sh.res.BoundHits = append(it.sh.res.BoundHits, e.why+" at "+at+" | inputs:"+ins)
+					if recs != nil && len(it.sh.res.BoundInputs) < 3 {
+						it.sh.res.BoundInputs = append(it.sh.res.BoundInputs, recs)
+					}
 				}
 				it.sh.res.mu.Unlock()
 			case unsupportedErr:
